@@ -26,6 +26,12 @@ MUTANTS = [
  {"id": "benign-if-let-instead-of-unwrap", "kind": "benign",
   "edits": [(P, "        p = p1.next();\n        if p.is_none() || !Self::is_simple_char(p.unwrap()) {\n            return true;\n        }\n        if p != p2.next() {\n            return false;\n        }\n\n        p = p1.next();", "        p = p1.next();\n        match p {\n            Some(c) if Self::is_simple_char(c) => {}\n            _ => return true,\n        }\n        if p != p2.next() {\n            return false;\n        }\n\n        p = p1.next();")]},
  {"id": "benign-rename-cursor", "kind": "benign", "edits": [(D, "re:\\bidx\\b", "pos", 16)]},
+
+ {"id": "probe-panic-expect-on-parse", "kind": "break", "edits": [(D, "pkgrevision = nbstr.parse::<i64>().unwrap_or(0);", "pkgrevision = if nbstr.is_empty() { 0 } else { nbstr.parse::<i64>().expect(\"digits\") };")], "expect": ["PANIC"]},
+ {"id": "probe-panic-slice-first-two-bytes", "kind": "break", "edits": [(P, "    fn is_simple_char(c: char) -> bool {", "    #[allow(dead_code)]\n    fn first_two(s: &str) -> &str {\n        &s[..2]\n    }\n\n    fn is_simple_char(c: char) -> bool {")], "expect": ["PANIC"]},
+ {"id": "probe-hang-cursor-not-advanced-on-other", "kind": "break", "edits": [(D, "            } else {\n                idx += c.len_utf8();\n            }", "            } else if !c.is_ascii() {\n                idx += c.len_utf8();\n            } else if c != '+' {\n                idx += 1;\n            }")], "expect": ["TERM"]},
+ {"id": "probe-panic-division-by-len", "kind": "break", "edits": [(S, "        let slen = input_string.len();", "        let slen = input_string.len();\n        let _avg = slen / self.entries.len();")], "expect": ["PANIC"]},
+ {"id": "probe-panic-remove-first-entry", "kind": "break", "edits": [(L, "        Ok(plist)\n    }\n\n    /**\n     * Return the package name as specified", "        if plist.entries.len() > 1000000 {\n            plist.entries.remove(0);\n        }\n        Ok(plist)\n    }\n\n    /**\n     * Return the package name as specified")], "expect": []},
 ]
 
 from selfcheck.c02 import MUTANTS as _C02  # noqa: E402
